@@ -154,7 +154,8 @@ class DCInitialCounter(Contract):
 @register
 class DCHookAfter(Contract):
     """NUMBERED: a NEW lock and a NEW shared counter initialised from the directory listing; otherwise the counter is the constant 1.  Nothing else changes.
-    NOTE: ``__lock`` and ``__counter`` are NOT excluded from the state (DirectoryCreator declares no ``_ATTR_NOT_TO_SERIALIZE``): see the lemma LocksAreExcluded."""
+    ``__lock`` is excluded from the state (a94ccfa; lemmas LocksAreExcluded and DirectoryCreatorLock); ``__counter`` is not, but the hook re-binds it: the counter of a
+    restored NUMBERED creator is re-read from the directory listing, not carried over."""
 
     targets = (DC + "." + AFTER,)
     prop = ("C20",)
@@ -163,6 +164,8 @@ class DCHookAfter(Contract):
     modifies = ("self", "ghost:lock_ctr", "ghost:sync", "ghost:sync_ctr")
     raises = {"AttributeError": lambda c: z3.Not(dict0(c).has(lit(DC_METHOD)))}
     creates = (DC_COUNTER,)
+    # created only under a condition on restored attributes; the class lemma named here shows that the original holds the attribute only under the same condition
+    creates_when = {DC_LOCK: "DirectoryCreatorLock"}
 
     def requires(self, c):
         return axioms()
@@ -587,7 +590,15 @@ class RestoreRecreatesWhatIsDropped(Contract):
             created = tuple(before_creates(q) or ()) + tuple(after_creates(q) or ()) + tuple(getattr(own, "creates", ()) if own is not None else ())
             hyps = [D1[lit(n)] for n in created]
             attrs = instance_attributes(q, classes)
+            conditional = {}
+            for ct in (bc, ac, own):
+                conditional.update(getattr(ct, "creates_when", {}) if ct is not None else {})
             for n in sorted(X or ()):
+                if n in conditional and n not in created:
+                    # re-created exactly when the original holds it: shown by a dedicated class lemma over the hook's verified contract
+                    out.append((f"{L}:{n}:dropped-at-pickling:re-created-at-restore-whenever-the-original-holds-it",
+                                z3.BoolVal(f"lemma:{__name__}.{conditional[n]}" in C.all_contracts())))
+                    continue
                 if n not in attrs:
                     # a declared name that is no attribute of the instances (e.g. an un-mangled private name): nothing is dropped under it, so nothing has to be
                     # re-created (C20 does not state that a declared exclusion must be effective, see the correction note in c20_serialization.py)
@@ -1006,3 +1017,53 @@ class SharedCellsAreRecreated(Contract):
                 out.append((f"{_label(q)}:{n}:shared-cell-re-created-by-a-hook", z3.BoolVal(n in created)))
         out.append(("the-scan-sees-the-known-shared-cells", z3.BoolVal("_n_calls" in shared_cell_attributes("gemseo.algos.problem_function.ProblemFunction", classes))))
         return out
+
+
+def stores_of(cls, attr):
+    """The methods of ``cls`` (real source) that bind ``self.<attr>`` (mangled name)."""
+    ci = S.load_class(cls)
+    out = set()
+    for name, nodes in ci.methods.items():
+        for fn in nodes:
+            for node in ast.walk(fn):
+                if isinstance(node, ast.Attribute) and isinstance(node.ctx, ast.Store) and isinstance(node.value, ast.Name) and node.value.id == "self" \
+                        and S.mangle(ci.name, node.attr) == attr:
+                    out.add(name)
+    return out
+
+
+@register
+class DirectoryCreatorLock(Contract):
+    """(a94ccfa) `__lock` - the only excluded attribute - is re-created at restore whenever the original holds it.  Class invariant, from the real source: `__lock` is
+    only bound by _init_shared_memory_attrs_after (NUMBERED branch, contract DCHookAfter), which __init__ calls after binding `__directory_naming_method`, the latter
+    being bound nowhere else: an object holding a lock has the NUMBERED naming method.  The naming method is not excluded, so the restored object has the same one
+    (c20_serialization.SetState) when the hook runs, and DCHookAfter then gives a NEW lock."""
+
+    lemma = True
+    targets = ()
+    prop = ("C20",)
+
+    def lemmas(self):
+        Bs, As = z3.ArraySort(Str, z3.BoolSort()), z3.ArraySort(Str, A)
+        D, V, DS, VS, D1, V1 = (z3.Const(n, s) for n, s in (("dl_d", Bs), ("dl_v", As), ("dl_ds", Bs), ("dl_vs", As), ("dl_d1", Bs), ("dl_v1", As)))
+        ctr0 = z3.Int("dl_lock_ctr0")
+        method, lock = lit(DC_METHOD), lit(DC_LOCK)
+        numbered = lambda v: v == Q.attr_of_str(lit("NUMBERED"))  # noqa: E731
+        X = H.exclusions(DC)
+        fi = S.load_function(DC + ".__init__")
+        body = [ast.unparse(st) for st in fi.node.body]
+        i_m = next((i for i, t in enumerate(body) if t.startswith("self.__directory_naming_method =")), None)
+        i_h = next((i for i, t in enumerate(body) if t == f"self.{AFTER}()"), None)
+        hyps = Q.kind_axioms() + P.kind_axioms() + [
+            z3.Implies(D[lock], z3.And(D[method], numbered(V[method]))),  # class invariant of the original
+            z3.And(DS[method] == D[method], VS[method] == B.dec(B.enc(V[method], z3.Const("dl_sync", P.SyncHeap)))),  # the naming method goes through the state (not excluded)
+            z3.Implies(z3.And(DS[method], numbered(VS[method])), z3.And(D1[lock], Q.is_lock(V1[lock]), Q.lock_id(V1[lock]) > ctr0)),  # DCHookAfter on the restored attributes
+            z3.Implies(z3.And(D[lock], Q.is_lock(V[lock])), Q.lock_id(V[lock]) <= ctr0),  # the locks of the original exist before the restore
+        ]
+        return [
+            ("exclusion-set:the-lock-only", z3.BoolVal(X == frozenset({DC_LOCK}))),
+            ("invariant:the-lock-is-only-bound-by-the-after-hook", z3.BoolVal(stores_of(DC, DC_LOCK) == {AFTER})),
+            ("invariant:the-naming-method-is-only-bound-by-__init__-before-the-hook-call", z3.BoolVal(stores_of(DC, DC_METHOD) == {"__init__"} and i_m is not None and i_h is not None and i_m < i_h)),
+            ("lock:re-created-whenever-the-original-holds-one", _facts(hyps, z3.Implies(D[lock], D1[lock]))),
+            ("lock:the-restored-lock-is-not-the-original-one", _facts(hyps, z3.Implies(z3.And(D[lock], Q.is_lock(V[lock])), V1[lock] != V[lock]))),
+        ]
